@@ -55,7 +55,7 @@ NameOnly == {"Variable", "DotWildcard", "StarWildcard", "UVar"}
 QuotKinds == {"Quotient", "FloorDiv", "Remainder", "QuotientBase"}
 ShiftKinds == {"LeftShift", "RightShift"}
 ChildOnly == {"BitwiseNot", "LogicalNot"}
-UserClasses == {"URoot", "UChild", "ULeg", "ULegChild", "UPlain", "UVar", "UTagVar"}
+UserClasses == {"URoot", "UChild", "ULeg", "ULegChild", "UPlain", "UVar", "UTagVar", "UInit"}
 
 FieldsOf(cls) ==
     CASE cls \in ChildrenOnly -> << "children" >>
@@ -75,12 +75,12 @@ FieldsOf(cls) ==
       [] cls = "Substitution" -> << "child", "variables", "values" >>
       [] cls = "Derivative"   -> << "child", "variables" >>
       [] cls = "NaN"          -> << "data_type" >>
-      [] cls \in {"URoot", "ULeg", "UPlain"} -> << "u", "v" >>
+      [] cls \in {"URoot", "ULeg", "UPlain", "UInit"} -> << "u", "v" >>
       [] cls \in {"UChild", "ULegChild"}     -> << "u", "v", "w" >>
       [] cls = "UTagVar"      -> << "name", "tag" >>
 
 TmplOf(cls) ==
-    CASE cls = "URoot"     -> "deco-root"
+    CASE cls \in {"URoot", "UInit"} -> "deco-root"
       [] cls = "UChild"    -> "deco-child"
       [] cls = "UTagVar"   -> "deco-child"
       [] cls = "ULeg"      -> "legacy"
